@@ -347,9 +347,19 @@ def needFirst (x : NPIn) (adding : Bool) : Option Bool :=
       | none => none
   else some (x.tgtIsFST && x.fld == .«value» && pi.kind == .«Constant» && pi.cint && x.tgtParent == some .«Attribute»)
 
-/-- `not self._is_enclosed_in_parents(field) and not put_fst._is_enclosed_or_line(check_pars=adding)` -/
+/-- the value of a `Starred` source whose own grouping parentheses are under consideration (`adding = False`), asked
+WITHOUT those parentheses: `put_is_star and not adding and not put_ast.value.f._is_enclosed_or_line(check_pars=False)`
+(/repo fix C09-F3: the parentheses after `*` may be what encloses a line break) -/
+def starValueOpen (x : NPIn) (adding : Bool) : Bool :=
+  x.put.info.kind == .«Starred» && !adding &&
+    match starChild x.put with
+    | some sc => !(eol x.putLines false sc).1.truthy
+    | none => false
+
+/-- `if not self._is_enclosed_in_parents(field): if not put_fst._is_enclosed_or_line(check_pars=adding): return True;
+if put_is_star and not adding and not value._is_enclosed_or_line(check_pars=False): return True` -/
 def lineBranch (x : NPIn) (adding : Bool) : Bool :=
-  !enclosedInParents (some x.fld) x.slf x.ups && !(eol x.putLines adding x.put).1.truthy
+  !enclosedInParents (some x.fld) x.slf x.ups && (!(eol x.putLines adding x.put).1.truthy || starValueOpen x adding)
 
 def lambdaBranch (x : NPIn) : Bool :=
   x.put.info.kind == .«Lambda» && lambdaWalk x.fld x.slf x.ups
